@@ -19,6 +19,21 @@ const modPath = "github.com/cloudwego/hertz"
 
 var verifDir = "/verif"
 
+// hzModule is the directory (relative to the repository root) of the second Go module in the
+// repository, the hz code generator.
+const hzModule = "cmd/hz"
+
+// moduleOf returns, for a package directory relative to the repository root, the directory of
+// the Go module it belongs to, the package pattern relative to that module and the import path
+// of the module's copy of the intrinsics package.
+func moduleOf(pkgRel string) (dir, pattern, zzImport string) {
+	pkgRel = strings.TrimPrefix(pkgRel, "./")
+	if strings.HasPrefix(pkgRel, hzModule+"/") {
+		return filepath.Join(repoDir, hzModule), "./" + strings.TrimPrefix(pkgRel, hzModule+"/"), modPath + "/" + hzModule + "/internal/zzverif"
+	}
+	return repoDir, "./" + pkgRel, modPath + "/internal/zzverif"
+}
+
 // overlayFiles maps virtual paths under /repo to real harness files under /verif/harness.
 func overlayFiles() (map[string]string, error) {
 	ov := map[string]string{}
@@ -34,6 +49,8 @@ func overlayFiles() (map[string]string, error) {
 		dir, base := filepath.Split(rel)
 		if strings.HasPrefix(rel, "zzverif/") {
 			ov[filepath.Join(repoDir, "internal/zzverif", base)] = p
+			// the hz tool is a module of its own: it gets its own copy of the intrinsics package
+			ov[filepath.Join(repoDir, hzModule, "internal/zzverif", base)] = p
 			return nil
 		}
 		ov[filepath.Join(repoDir, dir, "zz_verif_"+base)] = p
@@ -77,10 +94,17 @@ func loadProgram(patterns []string) (*Loaded, error) {
 		}
 		overlay[v] = b
 	}
+	// all patterns of one load belong to one module
+	dir := repoDir
+	for i, p := range patterns {
+		var pat string
+		dir, pat, _ = moduleOf(p)
+		patterns[i] = pat
+	}
 	cfg := &packages.Config{
 		Mode: packages.NeedName | packages.NeedFiles | packages.NeedCompiledGoFiles | packages.NeedImports |
 			packages.NeedDeps | packages.NeedTypes | packages.NeedSyntax | packages.NeedTypesInfo | packages.NeedTypesSizes | packages.NeedModule,
-		Dir:        repoDir,
+		Dir:        dir,
 		BuildFlags: []string{"-tags=verif"},
 		Overlay:    overlay,
 		Env:        goEnv(),
